@@ -15,7 +15,8 @@ CLAUSES = ('D', 'U', 'L')
 
 def run(ctx, clauses=CLAUSES, label='dataflow'):
     # design level: judgement + instrumented machine, exhaustive over a small universe (Sound, Agrees, Detects)
-    ctx.mc('MC_Dataflow', 'MC_Dataflow', timeout=1800, coverage=False, workers=8)
+    if not ctx.replay:
+        ctx.mc('MC_Dataflow', 'MC_Dataflow', timeout=1800, coverage=False, workers=8)
     if ctx.replay:
         c = ctx.replay['case']
         cases = [(c['prog'], c['inputs'])]
